@@ -144,6 +144,44 @@ func BodyEvent(text string, desc interface{}) rec.Event {
 	return ev
 }
 
+// retained keeps earlier messages alive so that a later SetBody on another message can be shown not to disturb them.
+type retained struct {
+	m    *fbb.Message
+	raw  []byte
+	desc interface{}
+}
+
+var keep []retained
+
+func remember(text string, desc interface{}) {
+	m := fbb.NewMessage(fbb.Private, "LA5NTA")
+	if err := m.SetBody(text); err != nil {
+		return
+	}
+	raw, err := m.Bytes()
+	if err != nil {
+		return
+	}
+	keep = append(keep, retained{m, append([]byte(nil), raw...), desc})
+	if len(keep) > 6 {
+		keep = keep[1:]
+	}
+}
+
+// recheck re-serialises the retained messages: their stored bodies must be what they were.
+func recheck() rec.Event {
+	stable := true
+	var which interface{} = ""
+	for _, r := range keep {
+		raw, err := r.m.Bytes()
+		if err != nil || !bytes.Equal(raw, r.raw) {
+			stable = false
+			which = r.desc
+		}
+	}
+	return rec.Event{"op": "Recheck", "stable": stable, "which": which, "n": len(keep)}
+}
+
 // MainBody is the "body" subcommand.
 func MainBody(args []string) int {
 	fs := flag.NewFlagSet("body", flag.ExitOnError)
@@ -164,7 +202,14 @@ func MainBody(args []string) int {
 		if err := json.Unmarshal(line, &s); err != nil {
 			return err
 		}
-		w.Write(nil, []rec.Event{BodyEvent(expand(s, rng), s.Shape)})
+		text := expand(s, rng)
+		w.Write(nil, []rec.Event{BodyEvent(text, s.Shape)})
+		if len(text) < 5000 {
+			remember(text, s.Shape)
+			if n%3 == 0 {
+				w.Write(nil, []rec.Event{recheck()})
+			}
+		}
 		n++
 		return nil
 	})
